@@ -11,7 +11,7 @@ PROP_ID = "C09"
 LEVEL = "exploration"
 RULE = (
     "cases = (shape, start node, style, childiter, maxlevel, per-node text values, attribute selector kind). Enumerated: every "
-    "shape <= 6 (quick) / <= 7 (thorough) nodes x every start x 7 styles (4 built-in, one passed as class, 2 custom widths) x 5 "
+    "shape <= 6 (quick) / <= 8 (thorough) nodes x every start x 7 styles (4 built-in, one passed as class, 2 custom widths) x 5 "
     "childiters x maxlevel in {None,-1,0,1..height+2}; generated: trees <= 40 nodes with random custom styles and multi-line / "
     "empty / list / tuple / int / missing / callable attribute values, Node/AnyNode/SymlinkNode reprs with generated attributes. "
     "Non-trivial = at least one rendered row at depth >= 2 whose continuation flags (its own and its ancestors') are mixed, i.e. "
@@ -415,7 +415,7 @@ def _enum_cases(max_nodes, index, count):
 
 def plan(tier, seed):
     nshards = 16
-    max_nodes = 6 if tier == "quick" else 7
+    max_nodes = 6 if tier == "quick" else 8
     examples = 200 if tier == "quick" else 1500
     tasks = [{"engine": "enum", "max_nodes": max_nodes, "index": i, "count": nshards * 2} for i in range(nshards * 2)]
     tasks += [{"engine": "hyp", "examples": examples, "seed": seed * 1000 + i} for i in range(nshards)]
@@ -430,4 +430,4 @@ def run_task(task, acc):
 
 
 def evidence_extra(total, tier):
-    return {"exhaustive_subdomain": "every ordered tree shape with <= %d nodes x every start node x 7 styles x 5 childiters x every maxlevel" % (6 if tier == "quick" else 7)}
+    return {"exhaustive_subdomain": "every ordered tree shape with <= %d nodes x every start node x 7 styles x 5 childiters x every maxlevel" % (6 if tier == "quick" else 8)}
